@@ -143,7 +143,8 @@ class World(object):
         self.log = []  # (subscriber id, saw is_computed(), saw outcome)
         self.active = None
         self.vals = {"v1": self.T.reg(Val("v1"), "v1"), "v2": self.T.reg(Val("v2"), "v2")}
-        self.errs = {"e1": self.T.reg(HErr("e1"), "e1"), "e2": self.T.reg(HErr("e2"), "e2")}
+        # e2 is an exception whose truth value is False (e.g. one carrying an empty list of reasons)
+        self.errs = {"e1": self.T.reg(HErr("e1"), "e1"), "e2": self.T.reg(histx.HFalsyErr("e2"), "e2")}
         self.judge_notify = True
         self.item_value = self.T.reg(Val("item"), "item")
         st0 = None
